@@ -139,8 +139,8 @@ PROPS.update({
     },
     "C08": {
         "prop_file": "Properties/C08.v",
-        "coq_targets": ["Properties/C08.vo", "Cases/LedgerRun.vo", "Ledger/Tie.vo"],
-        "families": [LEDGER],
+        "coq_targets": ["Properties/C08.vo", "Cases/LedgerRun.vo", "Ledger/Tie.vo", "Cases/DataRun.vo", "Data/Tie.vo"],
+        "families": [LEDGER, {"module": H, "cmd": "ledger", "args": ["-families", "data"], "emit": "data", "cache": True}],
         "trusted_base": LEDGER_TB, "assumptions": LEDGER_AS,
     },
     "C10": {
